@@ -1,0 +1,12 @@
+//go:build verif
+
+// Contracts for package keyfile, checked by /verif (bfvc). Comment-only.
+package keyfile
+
+// C39: loading a key file yields a usable key or an error, never (nil, nil).
+// os.Stat / os.ReadFile / os.WriteFile / os.IsNotExist return arbitrary results
+// (every file-system state), keypem.ParsePrivKeyPem may return (nil, nil) for
+// data without a PEM block.
+//@ func OpenOrWritePrivKey
+//@   noframe
+//@   ensures ret1 == nil ==> ret0 != nil
